@@ -854,8 +854,9 @@ def handle (st : State) (cmd : String) (inp obsToks : List String) : State × St
                   let infectedAfter := sumL (post.map (·.i))
                   -- "D D": deterministic radial kernel (3x3 window): destinations are neighbours of the source or the
                   -- source itself; those beyond the edge are recorded with their real coordinates
-                  if drT == "D" then
-                    let near (t : Int × Int) : Bool := departing.any fun (r, c) => (t.1 - r).natAbs ≤ 1 && (t.2 - c).natAbs ≤ 1
+                  if drT == "D" || drT == "R" then
+                    -- "R R": stochastic radial kernel - any distance; only the bookkeeping is checked
+                    let near (t : Int × Int) : Bool := drT == "R" || departing.any fun (r, c) => (t.1 - r).natAbs ≤ 1 && (t.2 - c).natAbs ≤ 1
                     if outO.any (fun t => !(g.isOutside t.1 t.2)) then finish st o s!"PROPFAIL C17 outside_recorded inside_cell_recorded_as_outside first={outO.head!}"
                     else if outO.any (fun t => !(near t)) then finish st o s!"PROPFAIL C17 overpopulation_kernel_scale destination_beyond_window {outO}"
                     else if (outO.length : Int) > left then finish st o s!"PROPFAIL C17 leaving_count recorded_outside={outO.length} left={left}"
